@@ -13,7 +13,7 @@ is skipped, it does not end the loop (seed C07-6)."""
 from vfacts import strip, walk, method_name, enclosing, is_node
 
 RULE = 'DRAIN'
-FLOOR = 22
+FLOOR = 60
 LOOPS = ('ForStmt', 'WhileStmt', 'CXXForRangeStmt', 'DoStmt', 'SwitchStmt')
 
 
@@ -76,19 +76,26 @@ def run(unit, em):
                 else:
                     em.violation(b, name + ': break', 'the worklist loop is abandoned while elements may still be queued, from a branch that records no result (use `continue` for an element that contributes nothing)')
         # ---- foreach: a per-element processing loop of a void member function is only left on a verdict
-        if unit.tname(fn.d.get('ret')) != 'void' or not fn.d.get('cls'):
+        isvoid = unit.tname(fn.d.get('ret')) == 'void'
+        if not fn.d.get('cls'):
             continue
         for lp in fn.walk(lambdas=False):
             if lp['k'] != 'CXXForRangeStmt' or not is_node(lp.get('body')):
                 continue
             # processing loop: its body calls a non-const member function of the own object (records the element)
-            records_elem = any(x['k'] == 'CXXMemberCallExpr' and not x.get('const') and x.get('inrepo') and
-                               (strip(x.get('obj')) is None or (strip(x.get('obj')) or {}).get('k') == 'CXXThisExpr')
-                               for x in walk(lp['body'], lambdas=False))
+            if isvoid:
+                records_elem = any(x['k'] == 'CXXMemberCallExpr' and not x.get('const') and x.get('inrepo') and
+                                   (strip(x.get('obj')) is None or (strip(x.get('obj')) or {}).get('k') == 'CXXThisExpr')
+                                   for x in walk(lp['body'], lambdas=False))
+            else:
+                # value-returning builders (static operations): the loop records into a local result automaton / map
+                records_elem = any(x['k'] == 'CXXMemberCallExpr' and not x.get('const') and x.get('inrepo') and
+                                   (strip(x.get('obj')) or {}).get('k') == 'DeclRefExpr' and (strip(x.get('obj')) or {}).get('dk') == 'local'
+                                   for x in walk(lp['body'], lambdas=False))
             if not records_elem:
                 continue
             exits = [n for n in walk(lp['body'], lambdas=False)
-                     if (n['k'] == 'BreakStmt' and enclosing(n, LOOPS) is lp) or (n['k'] == 'ReturnStmt' and enclosing(n, ('LambdaExpr',)) is None)]
+                     if (n['k'] == 'BreakStmt' and enclosing(n, LOOPS) is lp) or (isvoid and n['k'] == 'ReturnStmt' and enclosing(n, ('LambdaExpr',)) is None)]
             name = 'for (%s : ...) in %s' % (lp['var'].get('n'), fn.q.split('::')[-1])
             if not exits:
                 em.ok(lp, name, 'every element is visited', 'foreach')
